@@ -423,6 +423,9 @@ func NewWorldWrap(cm *chain.Manager, wallet rhp.Wallet, trusting bool, wrapSecto
 		TotalStorage:        1 << 40,
 		Prices:              w.Prices,
 	}
+	if wallet != nil {
+		w.Settings.WalletAddress = wallet.Address()
+	}
 	var sectors rhp.Sectors = w.Sec
 	if wrapSectors != nil {
 		sectors = wrapSectors(w.Sec)
